@@ -667,7 +667,10 @@ class NullFlow:
             for n in walk(astdb.fn_body(f)):
                 if n.get('kind') == 'BinaryOperator' and n.get('opcode') in ('=', '==', '!='):
                     l, r = kids(n)
-                    if astdb.const_int(strip(r, casts=True), tu) == 0 and '*' in tu.desugar(astdb.qtype(l)):
+                    r0 = strip(r, casts=True)
+                    nullish = astdb.const_int(r0, tu) == 0 or (n['opcode'] == '=' and r0.get('kind') == 'ConditionalOperator' and any(
+                        astdb.const_int(strip(x, casts=True), tu) == 0 for x in kids(r0)[1:]))
+                    if nullish and '*' in tu.desugar(astdb.qtype(l)):
                         loc = self.loc_of(l, tu, f['name'])
                         if loc in [(s[0], s[1], s[2]) for s in NULLABLE_SEEDS]:
                             found.setdefault(loc, []).append('%s %s at %s' % ('stored NULL' if n['opcode'] == '=' else 'compared with NULL', f['name'], astdb.loc_str(n)))
